@@ -371,6 +371,24 @@ pub fn run(ctx: &Ctx) {
     if !res.complete {
         ctx.set("exhaustive", json!(false));
     }
+    // 5c. many empty elements in both spellings (counters that drift per self-closed element)
+    for n in [200usize, 255, 256, 257, 300, 1000] {
+        let a = format!("<r>{}</r>", "<b/>".repeat(n));
+        let b = format!("<r>{}</r>", "<b></b>".repeat(n));
+        let c = format!("<r>{}</r>", "<b k=\"v\"><c/></b>".repeat(n));
+        let d = format!("<r>{}</r>", "<b k=\"v\"><c></c></b>".repeat(n));
+        evals += cmp.same("empty-element-form", &[a.clone()], &[b], n as u64, json!(null));
+        evals += cmp.same("empty-element-form", &[c.clone()], &[d], n as u64, json!(null));
+        let want = observe_docs(&[a.clone()]);
+        if observe_cfg(&[a.clone()], &RCfg { expand_empty_elements: true, ..Default::default() }) != want {
+            ctx.report(Violation {
+                class: "expand-empty-elements".into(),
+                summary: format!("asking the reader to expand empty elements changes the output for {} empty elements", n),
+                replay: json!({"kind": "expand", "docs": [a]}),
+                rank: n as u64,
+            });
+        }
+    }
     // 6. reader behaviour (short reads, Interrupted) explored with the choice engine
     let sp2 = Space::new(full_cfg(3));
     let bound = ctx.tier.pick(2, 3);
@@ -423,11 +441,11 @@ pub fn run(ctx: &Ctx) {
     }
     // 7. the rewrites applied to members of a history (Start and Empty paths under surrounding occurrences)
     let alpha: Vec<Node> = {
-        let s = Space::new(full_cfg(2));
+        let s = Space::new(full_cfg(ctx.tier.pick(2, 3)));
         let c = Space::new(collide_cfg(3));
         (0..s.len()).map(|i| s.get(i)).chain((0..c.len()).map(|i| c.get(i))).collect()
     };
-    let hist_len = ctx.tier.pick(2, 3);
+    let hist_len = 2;
     let total = (alpha.len() as u64).pow(hist_len as u32);
     let res = par_for(
         total,
@@ -445,6 +463,20 @@ pub fn run(ctx: &Ctx) {
             let orig: Vec<String> = nodes.iter().map(|n| xml(n)).collect();
             let canon_all: Vec<String> = nodes.iter().map(|n| xml(&canon(n))).collect();
             *acc += cmp.same("skeleton-in-history", &orig, &canon_all, idx, json!(null));
+            // longer values and a leading declaration + comment in the first document only
+            // (byte offsets of everything that follows move)
+            {
+                let long = "value ".repeat(20);
+                let first = Doc {
+                    prolog: vec![Misc::Decl("xml version=\"1.0\"".into()), Misc::Comment(" a rather long leading comment ".repeat(4))],
+                    root: Some(set_values(nodes[0], &long, &long)),
+                    epilog: vec![],
+                }
+                .to_xml();
+                let mut moved = orig.clone();
+                moved[0] = first;
+                *acc += cmp.same("values-in-history", &orig, &moved, idx, json!(null));
+            }
             // one member rewritten at a time
             for k in 0..hist_len {
                 let mut one = orig.clone();
